@@ -216,3 +216,120 @@ class ArrayEncodeAny:
                 and children_at(result, h, self.data, i))
 
     loops = {1: Loop(a=inv)}
+
+
+# =============================================================================================== Array.decode for ANY element count
+class AbsDescriptor:
+    """The item definition an open list creates its elements from; ghost g_made counts the objects created so far."""
+
+
+NEWKIDS = Region("new_children", AbsVar, g_from=Int, g_to=Int)
+
+
+@contract("secsgem.secs.variables.functions:generate", "C01", name="GenerateNextAbs")
+class GenerateNextAbs:
+    """ASSUMED (C19): a fresh variable object for the item definition - fresh = the next object of the region of objects
+    this call sequence creates (object number g_made), distinct from every object created before."""
+
+    abstract = True
+    returns = Elem(NEWKIDS)
+    modifies = {"data_format.g_made": Int}
+
+    def requires(data_format):
+        return 0 <= data_format.g_made and data_format.g_made < region_size(data_format.g_region)
+
+    def ensures(data_format, old, result):
+        return key_of(result) == old.data_format.g_made and data_format.g_made == old.data_format.g_made + 1
+
+
+@contract("spec.ext:AbsVar.decode", "C01", name="ChildDecodeAnyAbs")
+class ChildDecodeAnyAbs:
+    """ASSUMED at call sites (abstract codec contract, as ChildDecodeAbs): decodes one item starting at `start` and returns the
+    position after it; only this object's ghost positions change."""
+
+    abstract = True
+    modifies = {"self.g_from": Int, "self.g_to": Int}
+    returns = Int
+
+    def ensures(self, start, result):
+        return self.g_from == start and self.g_to == result and result >= start
+
+
+@contract("secsgem.secs.variables.array:Array.decode", "C01", name="ArrayDecodeAny")
+class ArrayDecodeAny:
+    """O14 (also C02) for EVERY announced element count n and k = 1..3 length bytes: exactly n fresh children are created,
+    child 0 is decoded right after the header, child j from where child j-1 ended, the position after the last child is
+    returned, and whatever the array held before is gone.  The objects created are the next n objects of a heap region of
+    symbolic size; the new list is a list of region objects of symbolic length."""
+
+    cases = [(f"k{k}", {"k": k}) for k in (1, 2, 3)]
+    uses = [ChildDecodeAnyAbs, GenerateNextAbs]
+
+    def replay(case, name, model):
+        """Native demonstration: real open lists of U1 / U2 / A items with 0, 1, 2, 3, 300 and 70000 elements, encoded by the
+        independent reference encoder with k length bytes, decoded by the real Array into an array that held something
+        else before: the values read back, their number and the position returned."""
+        from spec import e5ref as R
+        k = case["k"]
+        failed = []
+        for typ, cls, mk_val in (("U1", V.U1, lambda j: j % 251), ("U2", V.U2, lambda j: (j * 7) % 65536), ("A", V.String, lambda j: "x" * (j % 4))):
+            for n in (0, 1, 2, 3, 300, 70000):
+                if (k == 1 and n > 255) or (k == 2 and n > 65535):
+                    continue
+                vals = [mk_val(j) for j in range(n)]
+                kids = [(typ, [v]) if typ != "A" else ("A", v) for v in vals]
+                body = b"".join(R.encode(c) for c in kids)
+                data = b"\xAA" + R.header(0, n, k) + body + b"\xBB"
+                arr = V.Array(cls, [mk_val(5), mk_val(6)])
+                try:
+                    end = arr.decode(data, 1)
+                except Exception as exc:
+                    failed.append(f"{typ} x {n}, k={k}: {type(exc).__name__}: {exc}"[:160])
+                    continue
+                got = arr.get()
+                if end != len(data) - 1:
+                    failed.append(f"{typ} x {n}, k={k}: returned position {end}, the item ends at {len(data) - 1}")
+                if list(got) != vals:
+                    failed.append(f"{typ} x {n}, k={k}: {len(got)} values read back, first difference at {next((i for i, (a, b) in enumerate(zip(got, vals)) if a != b), min(len(got), len(vals)))}")
+        if not failed:
+            return None
+        return {"status": "confirmed", "failed_clauses": failed[:6], "inputs": {"element_counts": [0, 1, 2, 3, 300, 70000], "length_bytes": k}}
+
+    def inputs(k):
+        return {"self": Obj(V.Array, data=FixedList(child()), count=Int, item_decriptor=Obj(AbsDescriptor, g_made=Int(0, None), g_region=NEWKIDS)),
+                "data": Bytes(min_len=1), "start": Int(0, None)}
+
+    def requires(self, data, start, case):
+        k = case["k"]
+        d = self.item_decriptor
+        return (start + 1 + k <= len(data) and data[start] == k
+                and d.g_made + e5.uint_at(data, start + 1, k) <= region_size(d.g_region))
+
+    def raises():
+        return {}
+
+    def ensures(self, data, start, result, old, case):
+        k = case["k"]
+        n = e5.uint_at(data, start + 1, k)
+        first = start + 1 + k
+        m0 = old.self.item_decriptor.g_made
+        return {"element-count": len(self.data) == n,
+                "fresh-children-in-creation-order": forall(0, n, lambda j: key_of(self.data[j]) == m0 + j),
+                "first-child-right-after-header": implies(n >= 1, lambda: self.data[0].g_from == first),
+                "children-back-to-back": forall(1, n, lambda j: self.data[j].g_from == self.data[j - 1].g_to),
+                "position": result == (first if n == 0 else self.data[n - 1].g_to)}
+
+    def inv(self, data, start, text_pos, i, old, case):
+        k = case["k"]
+        n = e5.uint_at(data, start + 1, k)
+        first = start + 1 + k
+        d = self.item_decriptor
+        m0 = old.self.item_decriptor.g_made
+        return (len(self.data) == i and d.g_made == m0 + i
+                and forall(0, i, lambda j: key_of(self.data[j]) == m0 + j)
+                and implies(i >= 1, lambda: self.data[0].g_from == first)
+                and forall(1, i, lambda j: self.data[j].g_from == self.data[j - 1].g_to)
+                and text_pos == (first if i == 0 else self.data[i - 1].g_to))
+
+    loops = {1: Loop(a=inv, types={"self.data": ElemList(NEWKIDS)},
+                     modifies=["self.item_decriptor.g_made", "region:new_children.g_from", "region:new_children.g_to"])}
